@@ -399,8 +399,10 @@ func (h *Handler) countFailure(p *peer) {
 func (h *Handler) Cleanup() error {
 	// remove hosts from our config from the pool
 	for _, upstream := range h.Upstreams {
-		for _, dialAddr := range upstream.Dial {
-			_, _ = peers.Delete(dialAddr)
+		// only what provisioning has stored: it stops at the first address it cannot use,
+		// and the entries of the others belong to whoever else has stored them
+		for i := range upstream.peers {
+			_, _ = peers.Delete(upstream.Dial[i])
 		}
 	}
 	return nil
